@@ -361,6 +361,13 @@ def judge_path(op_line, out_line):
         return None, info    # AnytimePathShortening reports "budget spent, nothing found" as UNKNOWN
     if st in ("CRASH", "ABORT", "UNKNOWN", "INVALID_START", "INVALID_GOAL", "UNRECOGNIZED_GOAL_TYPE"):
         return "planner status %s on a well-posed problem" % st, info
+    if "aps_best" in d:
+        # AnytimePathShortening's bookkeeping (theorem aps_best_cost_is_min_of_stored): bestCost_ is the cost of a stored
+        # path, and the cheapest one (bit patterns; +infinity when nothing is stored)
+        if d["aps_best_is_stored"] != "1" or d["aps_best"] != d["aps_min_stored"]:
+            return ("AnytimePathShortening: bestCost_ = %.17g, cheapest stored path costs %.17g (bestCost_ is a stored cost: %s)"
+                    % (b2f(d["aps_best"]), b2f(d["aps_min_stored"]), d["aps_best_is_stored"])), info
+        info["aps_bookkeeping"] = 1
     n = info["nstates"]
     if st in ("EXACT_SOLUTION", "APPROXIMATE_SOLUTION") and n == 0:
         return "status %s but no solution path in the problem definition" % st, info
@@ -1182,6 +1189,8 @@ def run(ck):
         if op == "planner":
             what, info = judge_path(op_line, res["line"])
             ck.count("planner-status:%s" % info.get("status"))
+            if info.get("aps_bookkeeping"):
+                ck.count("aps-best-cost-equals-min-stored")
             if info.get("nstates"):
                 ck.count("planner-paths-judged")
                 ck.count("planner-paths-judged:%s" % ("gap+vertex" if op_line.split()[1] in NOT_STRICT else "strict+gap"))
